@@ -10,16 +10,37 @@ def Op.isOrd : Op → Bool
   | .eq | .ne => false
   | _ => true
 
-/-- two cmp_using objects whose payload types match, or no match is required -/
-def Comparable (c : Case) (x y : Opd) : Prop :=
+/-- two cmp_using objects whose payload types match, or no match is required: the function gets called -/
+def Comparable0 (c : Case) (x y : Opd) : Prop :=
   x.cmpObj = true ∧ y.cmpObj = true ∧ (c.requireSameType = true → x.ty = y.ty)
 
-theorem method_comparable (c : Case) (r : Rel) (x y : Opd) (h : Comparable c x y) :
-    method c r x y = r.eval x.val y.val := by
+/-- … and the supplied functions are defined on the two payloads (total functions, or payloads of one class) -/
+def Comparable (c : Case) (x y : Opd) : Prop :=
+  Comparable0 c x y ∧ (c.partialFns = true → x.ty = y.ty)
+
+theorem method_comparable0 (c : Case) (r : Rel) (x y : Opd) (h : Comparable0 c x y) :
+    method c r x y = fnRes c r x y := by
   obtain ⟨_, hy, ht⟩ := h
   by_cases hr : c.requireSameType = true
   · simp [method, hr, hy, ht hr]
   · simp [method, hr, hy]
+
+theorem methodLog_comparable0 (c : Case) (op : Op) (x y : Opd) (h : Comparable0 c x y) :
+    methodLog c op x y = [callEv op x y] := by
+  obtain ⟨_, hy, ht⟩ := h
+  by_cases hr : c.requireSameType = true
+  · simp [methodLog, hr, hy, ht hr]
+  · simp [methodLog, hr, hy]
+
+theorem fnRes_total (c : Case) (r : Rel) (x y : Opd) (h : c.partialFns = true → x.ty = y.ty) :
+    fnRes c r x y = r.eval x.val y.val := by
+  by_cases hp : c.partialFns = true
+  · simp [fnRes, hp, h hp]
+  · simp [fnRes, hp]
+
+theorem method_comparable (c : Case) (r : Rel) (x y : Opd) (h : Comparable c x y) :
+    method c r x y = r.eval x.val y.val := by
+  rw [method_comparable0 c r x y h.1, fnRes_total c r x y h.2]
 
 /-- same type required, payload types differ: every method built by `_make_operator` answers NotImplemented -/
 theorem method_mismatch (c : Case) (r : Rel) (x y : Opd) (hr : c.requireSameType = true)
@@ -161,8 +182,8 @@ theorem oper_ne_of_ne_NI (c : Case) (x y : Opd) (h : dunderNe c x y ≠ .NI) : o
 
 theorem isBool_ofBool (b : Bool) : isBool (R.ofBool b) = true := by cases b <;> rfl
 
-theorem eval_isBool (r : Rel) (h : r ≠ .ni) (a b : Int) : isBool (r.eval a b) = true := by
-  cases r <;> first | exact absurd rfl h | exact isBool_ofBool _ | rfl
+theorem eval_isBool (r : Rel) (h : r ≠ .ni ∧ r ≠ .boom) (a b : Int) : isBool (r.eval a b) = true := by
+  cases r <;> first | exact absurd rfl h.1 | exact absurd rfl h.2 | exact isBool_ofBool _ | rfl
 
 theorem isBool_not {r : R} (h : isBool r = true) : isBool r.not = true := by
   cases r <;> simp_all [isBool, R.not]
@@ -176,9 +197,9 @@ theorem fromRoot_isBool (d : Deriv) (r e n : R) (hr : isBool r = true) (he : isB
   cases r <;> simp_all [fromRoot, isBool] <;> exact applyDeriv_isBool d _ e n he hn
 
 theorem dunder_isBool (c : Case) (x y : Opd) (h : Comparable c x y) (req : Rel) (he : c.eq = some req)
-    (hn : 0 < numOrd c) (hall : ∀ op r, slot c op = some r → r ≠ .ni) (op : Op) :
+    (hn : 0 < numOrd c) (hall : ∀ op r, slot c op = some r → r ≠ .ni ∧ r ≠ .boom) (op : Op) :
     isBool (dunder c op x y) = true := by
-  have hreq : req ≠ .ni := hall .eq req (by simpa [slot] using he)
+  have hreq : req ≠ .ni ∧ req ≠ .boom := hall .eq req (by simpa [slot] using he)
   have hE : dunderEq c x y = req.eval x.val y.val := by
     simp [dunderEq, he, method_comparable c _ x y h]
   have hEb : isBool (dunderEq c x y) = true := by rw [hE]; exact eval_isBool req hreq _ _
@@ -319,9 +340,92 @@ theorem eval_std_ne_NI (op : Op) (a b : Int) : op.std.eval a b ≠ .NI := by
 
 theorem leftOpd_cmp (c : Case) : (leftOpd c).cmpObj = true := rfl
 
-theorem comparable_iff (c : Case) (hf : c.rhs ≠ .foreign) (h : comparable c = true) :
-    Comparable c (leftOpd c) (rightOpd c) := by
-  cases hr : c.rhs <;> simp_all [comparable, Comparable, leftOpd, rightOpd]
+theorem comparable0_of_spec (c : Case) (hf : c.rhs ≠ .foreign) (h : comparable c = true) :
+    Comparable0 c (leftOpd c) (rightOpd c) := by
+  cases hr : c.rhs <;> simp_all [comparable, Comparable0, leftOpd, rightOpd]
+
+theorem comparable_of_spec (c : Case) (hf : c.rhs ≠ .foreign) (h : comparable c = true)
+    (hp : fnsRaise c = false) : Comparable c (leftOpd c) (rightOpd c) := by
+  refine ⟨comparable0_of_spec c hf h, ?_⟩
+  cases hr : c.rhs <;> simp_all [fnsRaise, leftOpd, rightOpd]
+
+theorem fnRes_expected (c : Case) (r : Rel) : fnRes c r (leftOpd c) (rightOpd c) = expectedFn c r := by
+  have ht : ((rightOpd c).ty != (leftOpd c).ty) = (c.rhs != .same) := by
+    simp only [rightOpd, leftOpd]; cases c.rhs <;> rfl
+  by_cases hp : c.partialFns = true <;> by_cases hs : c.rhs = .same <;>
+    simp_all [fnRes, expectedFn, fnsRaise]
+
+theorem callEv_expected (c : Case) (op : Op) : callEv op (leftOpd c) (rightOpd c) = expectedCall c op := by
+  simp [callEv, expectedCall]
+
+theorem dunderLog_supplied (c : Case) (op : Op) (r : Rel) (x y : Opd) (h : slot c op = some r) :
+    dunderLog c op x y = methodLog c op x y := by
+  cases op with
+  | eq => simp only [slot] at h; simp [dunderLog, dunderEqLog, h]
+  | ne => simp [slot] at h
+  | _ => all_goals simp [dunderLog, dunderOrdLog, h]
+
+/-! ### mismatch: no supplied function is ever called -/
+
+theorem methodLog_mismatch (c : Case) (op : Op) (x y : Opd) (hr : c.requireSameType = true)
+    (ht : y.ty ≠ x.ty) : methodLog c op x y = [] := by
+  by_cases hy : y.cmpObj = true <;> simp [methodLog, hr, hy, ht]
+
+theorem dunderLog_mismatch (c : Case) (x y : Opd) (hr : c.requireSameType = true)
+    (hy : y.cmpObj = true) (ht : y.ty ≠ x.ty) (op : Op) : dunderLog c op x y = [] := by
+  have hl : ∀ o, methodLog c o x y = [] := fun o => methodLog_mismatch c o x y hr ht
+  have hm : ∀ r, method c r x y = .NI := fun r => method_mismatch c r x y hr hy ht
+  have heq : dunderEqLog c x y = [] := by
+    simp only [dunderEqLog]; cases c.eq <;> simp [hl]
+  cases op with
+  | eq => exact heq
+  | ne => exact heq
+  | _ =>
+    all_goals
+      simp only [dunderLog, dunderOrdLog]
+      split
+      · exact hl _
+      · split
+        · split
+          · rfl
+          · split
+            · simp [hl, hm]
+            · rfl
+        · rfl
+
+theorem operLog_mismatch (c : Case) (x y : Opd) (hr : c.requireSameType = true)
+    (hx : x.cmpObj = true) (hy : y.cmpObj = true) (ht : y.ty ≠ x.ty) (op : Op) : operLog c op x y = [] := by
+  have h1 := dunderLog_mismatch c x y hr hy ht
+  have h2 := dunderLog_mismatch c y x hr hx (fun e => ht e.symm)
+  have d1 := dunder_mismatch c x y hr hy ht
+  cases op with
+  | eq =>
+    have a := h1 .eq; have b := h2 .eq; have d := d1 .eq
+    simp only [dunderLog, dunder] at a b d
+    simp [operLog, opEqLog, a, b, d, hy]
+  | ne =>
+    have a := h1 .ne; have b := h2 .ne; have d := d1 .ne
+    simp only [dunderLog, dunder] at a b d
+    simp [operLog, opNeLog, a, b, d, hy]
+  | lt =>
+    have a := h1 .lt; have b := h2 .gt; have d := d1 .lt
+    simp only [dunderLog, dunder] at a b d
+    simp [operLog, Op.swap, a, b, d, hy]
+  | le =>
+    have a := h1 .le; have b := h2 .ge; have d := d1 .le
+    simp only [dunderLog, dunder] at a b d
+    simp [operLog, Op.swap, a, b, d, hy]
+  | gt =>
+    have a := h1 .gt; have b := h2 .lt; have d := d1 .gt
+    simp only [dunderLog, dunder] at a b d
+    simp [operLog, Op.swap, a, b, d, hy]
+  | ge =>
+    have a := h1 .ge; have b := h2 .le; have d := d1 .ge
+    simp only [dunderLog, dunder] at a b d
+    simp [operLog, Op.swap, a, b, d, hy]
+
+theorem atL_map (f : Op → List String) (op : Op) : atL (Op.all.map f) op = f op := by
+  cases op <;> rfl
 
 theorem model_meets_spec (c : Case) : spec c (model c) = true := by
   by_cases hcf : ctorFails c = true
@@ -338,9 +442,10 @@ theorem model_meets_spec (c : Case) : spec c (model c) = true := by
       all_goals
         have hf : c.rhs ≠ .foreign := by rw [hrhs]; simp
         have hat := at_map
-        simp only [Op.all] at hat
+        have hatL := atL_map
+        simp only [Op.all] at hat hatL
         by_cases hcmp : comparable c = true
-        · have hC := comparable_iff c hf hcmp
+        · have hC0 := comparable0_of_spec c hf hcmp
           simp only [hcmp, if_true, Bool.and_eq_true, List.all_eq_true, decide_eq_true_eq]
           refine ⟨⟨?_, ?_⟩, ?_⟩
           · intro op _
@@ -348,9 +453,11 @@ theorem model_meets_spec (c : Case) : spec c (model c) = true := by
             | none => rfl
             | some r =>
               have hd := dunder_supplied c op r (leftOpd c) (rightOpd c) hs
-              rw [method_comparable c r _ _ hC, leftOpd_val, rightOpd_val] at hd
-              simp only [hat, Bool.and_eq_true, beq_iff_eq, decide_eq_true_eq]
-              refine ⟨hd, ?_⟩
+              rw [method_comparable0 c r _ _ hC0, fnRes_expected] at hd
+              have hl := dunderLog_supplied c op r (leftOpd c) (rightOpd c) hs
+              rw [methodLog_comparable0 c op _ _ hC0, callEv_expected] at hl
+              simp only [hat, hatL, Bool.and_eq_true, beq_iff_eq, decide_eq_true_eq]
+              refine ⟨⟨hd, hl⟩, ?_⟩
               intro hb
               rw [oper_of_ne_NI c op _ _ (by rw [hd]; exact isBool_ne_NI hb), hd]
           · cases he : c.eq with
@@ -359,12 +466,13 @@ theorem model_meets_spec (c : Case) : spec c (model c) = true := by
               simp only [hat, decide_eq_true_eq, beq_iff_eq]
               intro hb
               have hd := dunder_supplied c .eq r (leftOpd c) (rightOpd c) (by simpa [slot] using he)
-              rw [method_comparable c r _ _ hC, leftOpd_val, rightOpd_val] at hd
+              rw [method_comparable0 c r _ _ hC0, fnRes_expected] at hd
               simp only [dunder] at hd
               simp only [dunder, dunderNe, he, hd]
               revert hb
-              cases r.eval c.a c.b <;> simp [isBool, R.not]
-          · intro ⟨⟨hc, he⟩, hn⟩ op _
+              cases expectedFn c r <;> simp [isBool, R.not]
+          · intro ⟨⟨⟨hc, he⟩, hn⟩, hp⟩ op _
+            have hC := comparable_of_spec c hf hcmp (by simpa using hp)
             have hd := dunder_std c _ _ hc he (by simpa using hn) hC op
             rw [leftOpd_val, rightOpd_val] at hd
             simp only [hat, beq_iff_eq]
@@ -379,8 +487,10 @@ theorem model_meets_spec (c : Case) : spec c (model c) = true := by
             cases hq : c.rhs <;> simp_all [rightOpd, leftOpd, comparable]
           have hm := dunder_mismatch c (leftOpd c) (rightOpd c) hr hy ht
           have ho := oper_mismatch c (leftOpd c) (rightOpd c) hr rfl hy ht
-          simp only [hcmp', Bool.false_eq_true, if_false, hat, hm, ho, beq_self_eq_true, List.all_cons,
-            List.all_nil, Bool.and_true, Bool.and_eq_true, decide_eq_true_eq]
+          have hl1 := dunderLog_mismatch c (leftOpd c) (rightOpd c) hr hy ht
+          have hl2 := operLog_mismatch c (leftOpd c) (rightOpd c) hr rfl hy ht
+          simp only [hcmp', Bool.false_eq_true, if_false, hat, hatL, hm, ho, hl1, hl2, beq_self_eq_true,
+            List.all_cons, List.all_nil, Bool.and_true, Bool.and_eq_true, decide_eq_true_eq]
           simp
 
 end Attrs.C19.Cmp
